@@ -35,11 +35,12 @@ def riOf (line : String) : Option Nat :=
 (`RdsModel.Reentrant`; equal to `mstep` for mode 0 by `mstepH_noop`), the plain model otherwise -/
 def mstepR (cfg : Cfg) (reent : Nat) (w : World) (m : MOp) : World × List Event × Bool :=
   if reent = 0 then mstep cfg w m else
-  match handlerOfMode reent with
+  match handlerOfMode cfg reent with
   | some h =>
-    -- the harness reads the "own" value of an event after the nested call was made
     let r := mstepH cfg h w m
-    (r.1, r.2.1.map (fun e => { e with snap := h e e.snap }), r.2.2)
+    -- modes below 7000: the harness reads the "own" value of an event after the nested call was made (none of these
+    -- handlers invokes callbacks); modes 7000+: it reads it before
+    if reent < 7000 then (r.1, r.2.1.map (fun e => { e with snap := (h e e.snap).1 }), r.2.2) else r
   | none => mstep cfg w m
 
 structure Drv where
